@@ -1,6 +1,7 @@
 package main
 
 import (
+	"encoding/json"
 	"flag"
 	"fmt"
 
@@ -8,6 +9,11 @@ import (
 )
 
 func init() {
+	register("client-muts", func(args []string) error {
+		b, _ := json.Marshal(clientdrv.Mutations)
+		fmt.Println(string(b))
+		return nil
+	})
 	register("client-run", func(args []string) error {
 		fs := flag.NewFlagSet("client-run", flag.ExitOnError)
 		script := fs.String("script", "", "JSON file with scenarios")
